@@ -127,6 +127,7 @@ def _mcs_post(c, r):
         fam == MinFamK(c.A(c.wcnf), val, NotIgnored(c.ignore.t)),
         # nothing is returned exactly when no world satisfies the hard clauses
         (r.len() == 0) == L.isempty(c.A(c.wcnf)),
+        (r.len() == 0) == (fam == z3.EmptySet(KSet)),
         # every returned key is one of the keys that were not ignored
         L.Forall([xs, kk], [z3.IsMember(kk, xs)], z3.Implies(z3.And(z3.IsMember(xs, fam), z3.IsMember(kk, xs)), z3.IsMember(kk, NotIgnored(c.ignore.t))), "mcs.members.not.ignored"),
     ]
@@ -362,4 +363,263 @@ Contract(
         2: LoopSpec("[... for c in *", _hard_query("wcnf", "query_f_cnf")),
     },
     properties=["C03", "C07", "C11", "C12"],
+)
+
+
+# ---------------------------------------------------------------------------
+# LexInf (rc2): recursion at key level
+#   XV = MinFamK(Hv, val, layer i), XF = MinFamK(Hf, val, layer i)   (Hv, Hf already contain the query)
+#   LRECK(P,val,Hv,Hf,i) = if XV={} then False elif XF={} then True elif cv<cf then True elif cf<cv then False
+#                          elif i<=0 then False else TieK
+#   TieK <=> EXISTS xv in XV, |xv|=cv:  BAK(xv);   BAK(xv) <=> FOR ALL xf in XF, |xf|=cf: LRECK(P,val, ExK(Hv,xv), ExK(Hf,xf), i-1)
+#   ExK(H, xi) = H ∩ ⋂_{k in layer i} (k in xi ? fal(D[k]) : nf(D[k]))
+# ---------------------------------------------------------------------------
+ExactPK = L.prefix_fun(
+    "ExactPK",
+    [CMapS, LInt.sort, KSet],
+    L.WSet,
+    lambda v, l, xi: L.FULL,
+    lambda v, l, xi, k, prev: z3.If(z3.IsMember(LInt.at(l, k), xi), L.inter(prev, L.fal(z3.Select(v, LInt.at(l, k)))), L.inter(prev, L.nf(z3.Select(v, LInt.at(l, k))))),
+)
+
+
+def ExK(H, val, part, xi):
+    return L.inter(H, ExactPK(val, part, xi, LInt.len(part)))
+
+
+MinCardK = z3.Function("MinCardK", KFam, L.Int)
+mcwK = z3.Function("mcwK", KFam, KSet)
+FilterLen = z3.Function("FilterLen", LLInt.sort, L.Int, LLInt.sort)
+fidx = z3.Function("fidx", LLInt.sort, L.Int, KSet, L.Int)
+_X = z3.Const("_lk_X", KFam)
+_sx = z3.Const("_lk_s", KSet)
+_LL = z3.Const("_lk_LL", LLInt.sort)
+_nn, _kk = z3.Ints("_lk_n _lk_k")
+_FLt = FilterLen(_LL, _nn)
+# ASSUMED (TB-py semantics of the list filter; MCS lists are duplicate-free and pairwise different as sets)
+L.TH.axiom(
+    [_LL, _nn, _kk],
+    LLInt.at(_FLt, _kk),
+    z3.Implies(z3.And(0 <= _kk, _kk < LLInt.len(_FLt)), z3.And(z3.IsMember(setofK(LLInt.at(_FLt, _kk)), FamOfLL(_LL)), cardK(setofK(LLInt.at(_FLt, _kk))) == _nn)),
+    "assumed.filterlen.sound",
+)
+L.TH.axiom(
+    [_LL, _nn, _sx, _X],
+    [_FLt, z3.IsMember(_sx, _X)],  # (X is matched syntactically; that it IS the family is a semantic side condition)
+    z3.Implies(
+        z3.And(_X == FamOfLL(_LL), z3.IsMember(_sx, FamOfLL(_LL)), cardK(_sx) == _nn),
+        z3.And(0 <= fidx(_LL, _nn, _sx), fidx(_LL, _nn, _sx) < LLInt.len(_FLt), setofK(LLInt.at(_FLt, fidx(_LL, _nn, _sx))) == _sx),
+    ),
+    "assumed.filterlen.complete",
+)
+
+LRECK = z3.Function("LRECK", LLInt.sort, CMapS, L.WSet, L.WSet, L.Int, L.Bool)
+TieK = z3.Function("TieK", LLInt.sort, CMapS, L.WSet, L.WSet, L.Int, L.Bool)
+BAK = z3.Function("BAK", LLInt.sort, CMapS, L.WSet, L.WSet, L.Int, KSet, L.Bool)
+lwitK = z3.Function("lwitK", LLInt.sort, CMapS, L.WSet, L.WSet, L.Int, KSet)
+bawitK = z3.Function("bawitK", LLInt.sort, CMapS, L.WSet, L.WSet, L.Int, KSet, KSet)
+AtLevelLK = z3.Function("AtLevelLK", L.WSet, L.WSet, L.Bool)
+_m1, _m2 = z3.Consts("_mlk1 _mlk2", L.WSet)
+L.TH.axiom([_m1, _m2], AtLevelLK(_m1, _m2), AtLevelLK(_m1, _m2), "marker.LK")
+_Hv, _Hf = z3.Consts("_lk_Hv _lk_Hf", L.WSet)
+_xv, _xf = z3.Consts("_lk_xv _lk_xf", KSet)
+_layer = LLInt.at(_Pp, _ii)
+_kept = NotIgnored(IgnoreOf(_Pp, _ii))
+_lXV = MinFamK(_Hv, _v, _kept)
+_lXF = MinFamK(_Hf, _v, _kept)
+_cv, _cf = MinCardK(_lXV), MinCardK(_lXF)
+_largs = (_Pp, _v, _Hv, _Hf, _ii)
+_lme = LRECK(*_largs)
+_tie = TieK(*_largs)
+_mk = AtLevelLK(_Hv, _Hf)
+
+
+def _nxtK(xv, xf):
+    return LRECK(_Pp, _v, ExK(_Hv, _v, _layer, xv), ExK(_Hf, _v, _layer, xf), _ii - 1)
+
+
+LRECK_AXIOMS = [
+    L.Forall([_X, _sx], [MinCardK(_X), z3.IsMember(_sx, _X)], z3.Implies(z3.IsMember(_sx, _X), cardK(_sx) >= MinCardK(_X)), "def.MinCardK.lower"),
+    L.Forall([_X], [MinCardK(_X)], z3.Implies(_X != z3.EmptySet(KSet), z3.And(z3.IsMember(mcwK(_X), _X), cardK(mcwK(_X)) == MinCardK(_X))), "def.MinCardK.attained"),
+    L.Forall(
+        list(_largs),
+        [_lme, _mk],
+        _lme == z3.If(_lXV == z3.EmptySet(KSet), False, z3.If(_lXF == z3.EmptySet(KSet), True, z3.If(_cv < _cf, True, z3.If(_cf < _cv, False, z3.If(_ii <= 0, False, _tie))))),
+        "def.LRECK",
+    ),
+    L.Forall(list(_largs), [_tie, _mk], z3.Implies(_tie, z3.And(z3.IsMember(lwitK(*_largs), _lXV), cardK(lwitK(*_largs)) == _cv, BAK(*_largs, lwitK(*_largs)))), "def.TieK.elim"),
+    L.Forall(list(_largs) + [_xv], [_tie, _mk, z3.IsMember(_xv, _lXV)], z3.Implies(z3.And(z3.IsMember(_xv, _lXV), cardK(_xv) == _cv, BAK(*_largs, _xv)), _tie), "def.TieK.intro"),
+    L.Forall(list(_largs) + [_xv, _xf], [BAK(*_largs, _xv), _mk, z3.IsMember(_xf, _lXF)], z3.Implies(z3.And(BAK(*_largs, _xv), z3.IsMember(_xf, _lXF), cardK(_xf) == _cf), _nxtK(_xv, _xf)), "def.BAK.elim"),
+    L.Forall(
+        list(_largs) + [_xv],
+        [BAK(*_largs, _xv), _mk],
+        z3.Implies(z3.Not(BAK(*_largs, _xv)), z3.And(z3.IsMember(bawitK(*_largs, _xv), _lXF), cardK(bawitK(*_largs, _xv)) == _cf, z3.Not(_nxtK(_xv, bawitK(*_largs, _xv))))),
+        "def.BAK.intro",
+    ),
+]
+
+SL = SelfRC2("LexInf")
+
+
+def _l_pre(c):
+    P = _P(c)
+    return inv_es(c) + [0 <= c.partition_index.t, c.partition_index.t < LLInt.len(P), AtLevelLK(c.A(c.hard_constraints_v), c.A(c.hard_constraints_f))]
+
+
+def _l_post(c, r):
+    return [
+        r.t == LRECK(_P(c), _val(c).val, c.old.A(c.old.hard_constraints_v), c.old.A(c.old.hard_constraints_f), c.partition_index.t),
+        # the caller's WCNFs only gain soft clauses
+        c.A(c.hard_constraints_v) == c.old.A(c.old.hard_constraints_v),
+        c.A(c.hard_constraints_f) == c.old.A(c.old.hard_constraints_f),
+    ]
+
+
+def _l_ctx(s, pre):
+    return (_P(s), _val(s).val, pre.A(pre.hard_constraints_v), pre.A(pre.hard_constraints_f), s.partition_index.t)
+
+
+def _l_inv_outer(s, j, pre):
+    a = _l_ctx(s, pre)
+    lst = s._st.env["__seq3"].t
+    k = z3.Int("_lko_k")
+    return [
+        s.A(s.hard_constraints_v) == pre.A(pre.hard_constraints_v),
+        s.A(s.hard_constraints_f) == pre.A(pre.hard_constraints_f),
+        L.Forall([k], [LLInt.at(lst, k)], z3.Implies(z3.And(0 <= k, k < j), z3.Not(BAK(*a, setofK(LLInt.at(lst, k))))), "no.earlier.candidate.beats.all"),
+    ]
+
+
+def _l_inv_inner(s, j, pre):
+    P, val, i = _P(s), _val(s).val, s.partition_index.t
+    Hv, Hf = pre.A(pre.hard_constraints_v), pre.A(pre.hard_constraints_f)
+    lst = s._st.env["__seq4"].t
+    layer = LLInt.at(P, i)
+    k = z3.Int("_lki_k")
+    return [
+        s.A(s.hard_constraints_v) == Hv,
+        s.A(s.hard_constraints_f) == Hf,
+        s.beats_all.t == True,
+        L.Forall(
+            [k],
+            [LLInt.at(lst, k)],
+            z3.Implies(z3.And(0 <= k, k < j), LRECK(P, val, ExK(Hv, val, layer, setofK(s.xi_v.t)), ExK(Hf, val, layer, setofK(LLInt.at(lst, k))), i - 1)),
+            "beats.so.far",
+        ),
+    ]
+
+
+def _l_inv_part(s, j, pre):
+    val = _val(s).val
+    return [
+        s.A(s.hard_constraints_new_v) == L.inter(pre.A(pre.hard_constraints_new_v), ExactPK(val, s.part.t, setofK(s.xi_v.t), j)),
+        s.A(s.hard_constraints_new_f) == L.inter(pre.A(pre.hard_constraints_new_f), ExactPK(val, s.part.t, setofK(s.xi_f.t), j)),
+    ]
+
+
+def _l_cnf(name, dictkey):
+    def inv(s, j, pre):
+        cnf = z3.Select(_es(s, dictkey).val, s.i.t)
+        return [s.A(getattr(s, name)) == L.inter(pre.A(getattr(pre, name)), DcP(cnf, j))]
+
+    return inv
+
+
+ABS_L = {
+    "[item for sublist in self.epistemic_state['partition'] if sublist != part for item in sublist]": ABS_W[
+        "[item for sublist in self.epistemic_state['partition'] if sublist != part for item in sublist]"
+    ],
+    "min((len(xi) for xi in mcs_v))": (lambda s: VInt(MinCardK(FamOfLL(s.mcs_v.t))), "TB-py + MCS lists duplicate-free: least length = least cardinality of the family (mcs_v is non-empty here)"),
+    "min((len(xi) for xi in mcs_f))": (lambda s: VInt(MinCardK(FamOfLL(s.mcs_f.t))), "as above"),
+    "[xi for xi in mcs_v if len(xi) == min_len_v]": (lambda s: VList(FilterLen(s.mcs_v.t, s.min_len_v.t), TList(TInt)), "TB-py list filter (assumed.filterlen.*)"),
+    "[xi for xi in mcs_f if len(xi) == min_len_f]": (lambda s: VList(FilterLen(s.mcs_f.t, s.min_len_f.t), TList(TInt)), "TB-py list filter (assumed.filterlen.*)"),
+}
+
+Contract(
+    "inference.lex_inf:LexInf._rec_inference",
+    params={"self": SL, "hard_constraints_v": TSolverT, "hard_constraints_f": TSolverT, "partition_index": TInt, "deadline": DeadlineT},
+    returns=TBool,
+    requires=_l_pre,
+    ensures=_l_post,
+    modifies=["hard_constraints_v", "hard_constraints_f"],
+    raises={
+        "TimeoutError": lambda c: z3.BoolVal(True),
+        "ValueError": lambda c: z3.Not(lib.StartsWith(_es(c, "pmaxsat_solver").t, VStr(const="rc2").t)),
+    },
+    fuel=5,
+    axioms=LRECK_AXIOMS,
+    abstractions=ABS_L,
+    loops={
+        0: LoopSpec("for index in part", lambda s, j, pre: [s.A(s.hard_constraints_v) == pre.A(pre.hard_constraints_v), s.A(s.hard_constraints_f) == pre.A(pre.hard_constraints_f)]),
+        1: LoopSpec("[... for s in softc]", _unchanged("hard_constraints_v")),
+        2: LoopSpec("[... for s in softc]", _unchanged("hard_constraints_f")),
+        3: LoopSpec("for xi_v in *", _l_inv_outer),
+        4: LoopSpec("for xi_f in *", _l_inv_inner),
+        5: LoopSpec("for i in part", _l_inv_part),
+        6: LoopSpec("[... for c in *", _l_cnf("hard_constraints_new_v", "f_cnf_dict")),
+        7: LoopSpec("[... for c in *", _l_cnf("hard_constraints_new_v", "nf_cnf_dict")),
+        8: LoopSpec("[... for c in *", _l_cnf("hard_constraints_new_f", "f_cnf_dict")),
+        9: LoopSpec("[... for c in *", _l_cnf("hard_constraints_new_f", "nf_cnf_dict")),
+    },
+    properties=["C04"],
+    note="refinement of the rc2 recursion (exists/forall over minimum-cardinality sets) to LRECK under the assumed Inv_es / MCS / list-filter contracts",
+)
+
+
+# ---------------------------------------------------------------------------
+# LexInf._inference (rc2): strict short cuts, extended vacuity tests, feasibility constraints
+# ---------------------------------------------------------------------------
+def _li_post(c, r):
+    P, q = _P(c), c.query.t
+    m = LLInt.len(P)
+    val = _val(c).val
+    V, F, A = L.ver(q), L.fal(q), L.M(L.ant(q))
+    Fe = _feas(c)
+    strict = z3.If(z3.Or(L.isempty(A), L.isempty(F)), True, z3.If(L.isempty(V), False, LRECK(P, val, V, F, m - 1)))
+    ext = z3.If(
+        z3.Or(L.isempty(L.inter(Fe, A)), L.isempty(L.inter(Fe, F))),
+        True,
+        z3.If(m < 2, False, LRECK(P, val, L.inter(V, Fe), L.inter(F, Fe), m - 2)),
+    )
+    return [r.t == z3.If(c.weakly.t, ext, strict)]
+
+
+def _li_inv_solver(name):
+    def inv(s, j, pre):
+        P = _P(s)
+        last = LLInt.at(P, LLInt.len(P) - 1)
+        return [s.A(getattr(s, name)) == L.inter(pre.A(getattr(pre, name)), NfPK(_val(s).val, last, j))]
+
+    return inv
+
+
+def _li_inv_both(s, j, pre):
+    return _li_inv_solver("wcnf_v")(s, j, pre) + _li_inv_solver("wcnf_f")(s, j, pre)
+
+
+def _li_cnf(name):
+    return lambda s, j, pre: [s.A(getattr(s, name)) == L.inter(pre.A(getattr(pre, name)), DcP(z3.Select(_es(s, "nf_cnf_dict").val, s.index.t), j))]
+
+
+Contract(
+    "inference.lex_inf:LexInf._inference",
+    params={"self": SL, "query": TCnd, "weakly": TBool, "deadline": DeadlineT},
+    returns=TBool,
+    requires=_wi_pre,
+    ensures=_li_post,
+    raises={
+        "TimeoutError": lambda c: z3.BoolVal(True),
+        "ValueError": lambda c: z3.Not(lib.StartsWith(_es(c, "pmaxsat_solver").t, VStr(const="rc2").t)),
+    },
+    fuel=4,
+    loops={
+        0: LoopSpec("[... for c in *", _hard_query("wcnf_v", "query_v_cnf")),
+        1: LoopSpec("[... for c in *", _hard_query("wcnf_f", "query_f_cnf")),
+        2: LoopSpec("for index in self.epistemic_state['partition'][-1]", _li_inv_solver("taut_solver")),
+        3: LoopSpec("for index in self.epistemic_state['partition'][-1]", _li_inv_solver("contra_solver")),
+        4: LoopSpec("for index in self.epistemic_state['partition'][-1]", _li_inv_both),
+        5: LoopSpec("[... for c in *", _li_cnf("wcnf_v")),
+        6: LoopSpec("[... for c in *", _li_cnf("wcnf_f")),
+    },
+    properties=["C04", "C07", "C11", "C12"],
 )
